@@ -9,6 +9,7 @@ import (
 	"reflect"
 	"strings"
 	"time"
+	"unsafe"
 
 	"verif/kit"
 
@@ -78,6 +79,66 @@ var marshalValues = []namedValue{
 	{"int64 min", func() any { return int64(math.MinInt64) }, false},
 }
 
+// Values the wrapped encoders cannot encode, at every position of a composite:
+// the documented behaviour is an error, never a panic of the library.
+func init() {
+	type leaf struct {
+		name       string
+		make       func() any
+		comparable bool
+	}
+	leaves := []leaf{
+		{"chan int", func() any { return make(chan int) }, true},
+		{"func()", func() any { return func() {} }, false},
+		{"complex(1,2)", func() any { return complex(1, 2) }, true},
+		{"NaN", func() any { return math.NaN() }, true},
+		{"unsafe.Pointer", func() any { return unsafe.Pointer(new(int)) }, true},
+	}
+	type wrap struct {
+		name string
+		make func(l any) any
+		keys bool
+	}
+	wraps := []wrap{
+		{"[]any{%s}", func(l any) any { return []any{1, l} }, false},
+		{"map[string]any{k:%s}", func(l any) any { return map[string]any{"a": 1, "k": l} }, false},
+		{"struct{F any}{%s}", func(l any) any { return struct{ F any }{l} }, false},
+		{"&struct{A int; F any}{%s}", func(l any) any {
+			return &struct {
+				A int
+				F any
+			}{1, l}
+		}, false},
+		{"[]any{map[string]any{k:[]any{%s}}}", func(l any) any { return []any{map[string]any{"k": []any{l}}} }, false},
+		{"[1]any{%s}", func(l any) any { return [1]any{l} }, false},
+		{"*any → %s", func(l any) any { return &l }, false},
+		{"map[any]any{%s:1}", func(l any) any { return map[any]any{l: 1} }, true},
+	}
+	for _, l := range leaves {
+		for _, w := range wraps {
+			if w.keys && !l.comparable {
+				continue
+			}
+			l, w := l, w
+			marshalValues = append(marshalValues, namedValue{fmt.Sprintf(w.name, l.name), func() any { return w.make(l.make()) }, false})
+		}
+	}
+	marshalValues = append(marshalValues,
+		namedValue{"struct{C chan int}", func() any { return struct{ C chan int }{make(chan int)} }, false},
+		namedValue{"struct{F func()}", func() any { return struct{ F func() }{func() {}} }, false},
+		namedValue{"[]chan int{nil}", func() any { return []chan int{nil} }, false},
+		namedValue{"map[string]complex128", func() any { return map[string]complex128{"a": 1} }, false},
+		namedValue{"[]float64{1,NaN}", func() any { return []float64{1, math.NaN()} }, false},
+		namedValue{"map[string]float64{a:+Inf}", func() any { return map[string]float64{"a": math.Inf(1)} }, false},
+		namedValue{"struct with embedded cyclic pointer", func() any {
+			n := &cyc{}
+			n.Next = &cyc{Next: n}
+			return struct{ P *cyc }{n}
+		}, true},
+		namedValue{"[]any containing itself", func() any { s := []any{nil}; s[0] = s; return s }, true},
+	)
+}
+
 func onlyChars(s, set string) bool { return strings.Trim(s, set) == "" }
 
 func errStr(err error) string {
@@ -105,15 +166,28 @@ func targets() []target {
 	mk := func(name string, v any) target {
 		return target{name: name, typ: reflect.TypeOf(v), pre: nil}
 	}
-	ts := []target{
+	base := []target{
 		mk("*int", 0), mk("*string", ""), mk("*bool", false), mk("*float64", 0.0), mk("*uint8", uint8(0)),
 		mk("*[]int", []int(nil)), mk("*[]any", []any(nil)), mk("*map[string]any", map[string]any(nil)), mk("*map[string]int", map[string]int(nil)),
 		mk("*struct{A int;B []string}", tstruct{}), mk("**int", (*int)(nil)),
+		mk("*[]int8", []int8(nil)), mk("*[][]int", [][]int(nil)), mk("*[2]int", [2]int{}), mk("*cyc(cyclic)", cyc{}),
+		mk("*chan int", (chan int)(nil)), mk("*func()", (func())(nil)), mk("*complex128", complex128(0)),
 	}
-	ts = append(ts, target{name: "*any", typ: reflect.TypeOf((*any)(nil)).Elem()})
-	for i := range ts {
-		t := ts[i].typ
-		ts[i].pre = func() reflect.Value { return presetValue(t) }
+	base = append(base, target{name: "*any", typ: reflect.TypeOf((*any)(nil)).Elem()})
+	var ts []target
+	for _, b := range base {
+		t := b.typ
+		nz := b
+		nz.pre = func() reflect.Value { return presetValue(t) }
+		ts = append(ts, nz)
+		switch t.Kind() {
+		case reflect.Chan, reflect.Func:
+			continue // their only comparable preset is nil, which presetValue gives
+		}
+		z := b
+		z.name += "(zero)"
+		z.pre = func() reflect.Value { return reflect.New(t).Elem() }
+		ts = append(ts, z)
 	}
 	return ts
 }
@@ -131,11 +205,20 @@ func presetValue(t reflect.Type) reflect.Value {
 		v.SetBool(true)
 	case reflect.Float64:
 		v.SetFloat(7.5)
+	case reflect.Int8:
+		v.SetInt(7)
+	case reflect.Complex128:
+		v.SetComplex(complex(1, 2))
+	case reflect.Array:
+		v.Index(0).SetInt(9)
 	case reflect.Slice:
 		v.Set(reflect.MakeSlice(t, 1, 1))
-		if t.Elem().Kind() == reflect.Int {
+		switch t.Elem().Kind() {
+		case reflect.Int, reflect.Int8:
 			v.Index(0).SetInt(9)
-		} else {
+		case reflect.Slice:
+			v.Index(0).Set(reflect.ValueOf([]int{9}))
+		default:
 			v.Index(0).Set(reflect.ValueOf("preset"))
 		}
 	case reflect.Map:
@@ -146,6 +229,12 @@ func presetValue(t reflect.Type) reflect.Value {
 			v.SetMapIndex(reflect.ValueOf("preset"), reflect.ValueOf("p"))
 		}
 	case reflect.Struct:
+		if t == reflect.TypeOf(cyc{}) {
+			c := &cyc{}
+			c.Next = c
+			v.Field(0).Set(reflect.ValueOf(c))
+			break
+		}
 		v.Field(0).SetInt(9)
 		v.Field(1).Set(reflect.ValueOf([]string{"preset"}))
 	case reflect.Pointer:
@@ -200,7 +289,7 @@ func unmarshalSpace(name string, alpha []string, n int, extra []string, fn func(
 				return ok("invalid-target-error", false)
 			}
 			t := ts[k]
-			in := fmt.Sprintf("%s(%s, %s preset to %v)", name, q(data), t.name, t.pre().Interface())
+			in := fmt.Sprintf("%s(%s, %s)", name, q(data), t.name)
 			ptr := reflect.New(t.typ)
 			ptr.Elem().Set(t.pre())
 			err, p := try(func() error { return fn(data, ptr.Interface()) })
@@ -404,10 +493,15 @@ func jsonYAMLSpaces(thorough bool) []fspace {
 
 	// UnmarshalJSON / UnmarshalYAML
 	jAlpha := []string{"{", "}", "[", "]", ":", ",", `"a"`, `"A"`, "1", "null", "true", " ", "-", "1e", `"`, `\`, "\xff"}
-	jExtra := []string{`{"a":1,"A":2}`, `{"B":["x","y"],"A":3}`, `{"A":"x"}`, `[1,2,3]`, `300`, `1.5`, `{"a":{"b":[1,{"c":null}]}}`, `"\ud800"`, `1e400`}
+	jExtra := []string{`{"a":1,"A":2}`, `{"B":["x","y"],"A":3}`, `{"A":"x"}`, `[1,2,3]`, `300`, `1.5`, `{"a":{"b":[1,{"c":null}]}}`, `"\ud800"`, `1e400`,
+		// a type mismatch or an overflow in the MIDDLE of a composite
+		`[1,2,"x"]`, `[1,"x",3]`, `["x",1]`, `[1,300]`, `[300,1]`, `[1,2,3]`, `[[1],["x"]]`, `[[1],[2],3]`, `{"A":1,"B":["x",2]}`, `{"A":"x","B":["y"]}`, `{"B":["y"],"A":"x"}`,
+		`{"a":1,"b":"x"}`, `{"a":"x","b":1}`, `{"A":1e400}`, `{"Next":{"Next":"x"}}`, `{"Next":{"Next":null}}`, `{"a":[1,{"b":1e999}]}`, `[1,2`, `{"A":1,`}
 	out = append(out, unmarshalSpace("UnmarshalJSON", jAlpha, L, jExtra, builtin.UnmarshalJSON, json.Unmarshal))
 	yAlpha := []string{"a", ":", " ", "-", "\n", "1", "[", "]", "{", "}", `"`, "'", "#", "&", "*", "!", "|", ">", "?", "\t", "~", "\xff", ","}
-	yExtra := []string{"a: 1\nb: [x, y]\n", "- 1\n- 2\n", "A: 3\nB: [x]\n", "a: &x 1\nb: *x\n", "? a\n: b\n", "!!binary aGk=", "a: 1\na: 2\n", "<<: {a: 1}\n", "1: 2\n", "300", "--- a\n--- b\n", "%YAML 1.1\n---\na"}
+	yExtra := []string{"a: 1\nb: [x, y]\n", "- 1\n- 2\n", "A: 3\nB: [x]\n", "a: &x 1\nb: *x\n", "? a\n: b\n", "!!binary aGk=", "a: 1\na: 2\n", "<<: {a: 1}\n", "1: 2\n", "300", "--- a\n--- b\n", "%YAML 1.1\n---\na",
+		// duplicate keys, mismatches in the middle of a composite
+		"a: 1\nb: [x]\na: 2\n", "A: 1\nA: 2\n", "b: [x]\nb: [y]\n", "{a: 1, a: 2}", "- 1\n- x\n- 3\n", "- [1]\n- [x]\n", "a: 1\nb: x\n", "a: x\nb: [y]\n", "- 1\n- 300\n", "next: {next: x}\n", "a: [1, {b: !!float x}]\n"}
 	out = append(out, unmarshalSpace("UnmarshalYAML", yAlpha, L, yExtra, builtin.UnmarshalYAML, yaml.Unmarshal))
 	return out
 }
